@@ -169,6 +169,7 @@ package cqrs
 // ---- processors (C15) ----
 
 //@ func (CommandProcessor).routerHandlerFunc$1
+//@   assert @call:handle: calls(UM) >= 1 && arg(UM, 0, calls(UM) - 1) == msg && arg(UM, 1, calls(UM) - 1) == cmd [the-handler-is-given-the-freshly-decoded-command]
 //@   assert @call:handle: msg.ctx != nil && ctxval(msg.ctx, boxed(originalMessage)) == boxed(msg) [the-message-handed-to-the-handler-or-to-OnHandle-carries-itself-as-the-original-message-in-its-context]
 //@   requires msg != nil && handler != nil && p.config.Marshaler != nil && logger != nil
 //@   callee NC = handler.NewCommand
@@ -186,6 +187,7 @@ package cqrs
 //@   modifies msg.ctx
 
 //@ func (EventProcessor).routerHandlerFunc$1
+//@   assert @call:handle: calls(UM) >= 1 && arg(UM, 0, calls(UM) - 1) == msg && arg(UM, 1, calls(UM) - 1) == event && calls(NE) >= 1 && event == ret(NE, 0, calls(NE) - 1) [the-handler-is-given-the-freshly-decoded-value]
 //@   assert @call:handle: msg.ctx != nil && ctxval(msg.ctx, boxed(originalMessage)) == boxed(msg) [the-message-handed-to-the-handler-or-to-OnHandle-carries-itself-as-the-original-message-in-its-context]
 //@   requires msg != nil && handler != nil && p.config.Marshaler != nil && logger != nil
 //@   callee NE = handler.NewEvent
@@ -202,6 +204,8 @@ package cqrs
 //@   modifies msg.ctx
 
 //@ func (EventGroupProcessor).routerHandlerGroupFunc$1
+//@   assert @call:p.config.Marshaler.Unmarshal: calls(NE) >= 1 && event == ret(NE, 0, calls(NE) - 1) [the-message-is-decoded-into-a-value-this-handler-has-just-created]
+//@   assert @call:handle: calls(UM) >= 1 && arg(UM, 0, calls(UM) - 1) == msg && arg(UM, 1, calls(UM) - 1) == event && calls(NE) >= 1 && event == ret(NE, 0, calls(NE) - 1) [each-handler-of-the-group-is-given-its-own-freshly-decoded-value]
 //@   assert @call:handle: msg.ctx != nil && ctxval(msg.ctx, boxed(originalMessage)) == boxed(msg) [the-message-handed-to-the-handler-or-to-OnHandle-carries-itself-as-the-original-message-in-its-context]
 //@   requires msg != nil && p.config.Marshaler != nil && logger != nil
 //@   requires forall j int :: 0 <= j && j < len(handlers) ==> handlers[j] != nil
